@@ -336,7 +336,7 @@ func TestVerif_C13_rl(t *testing.T) {
 		base := strconv.Itoa(B) + " %s " + verifh.HexList(chunks) + " " + verifh.IntList(errs) + " " + strings.Join(ops, ",")
 		human := fmt.Sprintf("B=%d ops=%v stream=%q (%d reads)", B, ops, c13Clip(data.String(), 120), len(chunks))
 		nontriv := plain.sawPrefix || strings.Contains(plain.results, ":o") || strings.Contains(plain.results, "toolarge") || strings.Contains(plain.results, "noprogress")
-		cnt.add(s, "B=" + strconv.Itoa(B))
+		cnt.add(s, "B="+strconv.Itoa(B))
 		if plain.sawPrefix {
 			cnt.add(s, "line>=B")
 		}
@@ -345,7 +345,7 @@ func TestVerif_C13_rl(t *testing.T) {
 		}
 		for _, k := range []string{"eof", "toolarge", "noprogress", ":o"} {
 			if strings.Contains(plain.results, k) {
-				cnt.add(s, "err" + k)
+				cnt.add(s, "err"+k)
 			}
 		}
 		s.Case("c13rl "+fmt.Sprintf(base, "plain"), plain.answer, true, "", nontriv, "plain "+human)
@@ -530,7 +530,7 @@ func TestVerif_C13_head(t *testing.T) {
 				long = true
 			}
 		}
-		cnt.add(s, "B=" + strconv.Itoa(B))
+		cnt.add(s, "B="+strconv.Itoa(B))
 		if long {
 			cnt.add(s, "line>=B")
 		}
@@ -540,8 +540,8 @@ func TestVerif_C13_head(t *testing.T) {
 		if nh > 8 {
 			cnt.add(s, "many-headers")
 		}
-		cnt.add(s, "status-err=" + p0.herr)
-		cnt.add(s, "header-err=" + p0.merr)
+		cnt.add(s, "status-err="+p0.herr)
+		cnt.add(s, "header-err="+p0.merr)
 		class := ""
 		switch {
 		case long:
